@@ -1,3 +1,3 @@
 module verif.local/simrt
 
-go 1.14
+go 1.21
